@@ -34,6 +34,9 @@ def check(run):
         if not renamed:
             run.undecided_ob("C11/native/job-tiling-laplace", "cppvc", "vcgen", "no tiling obligations were generated: contract no longer binds")
         N.report(run, renamed, on_failed=_on_failed)
+    # the counter's state is a function of its offset: whatever job reaches offset t, by construction or by next(), holds the same code
+    from contracts import C04_gray
+    C04_gray.check_ghost(run, only=("val_bound", "parg_same", "val_unique", "gray_unique", "state_is_a_function_of_the_offset"))
     bounded(run)
     run.assume("C11/native: equality of the SET of addends for every job count is proved (tiling + counter state is a function of the "
                "offset: the counter's constructor and next() are verified against the class invariant offset = mixed-radix value of the digits, "
